@@ -533,7 +533,7 @@ class Emit:
         if k == 'int':
             return int_ctype(t.a)
         if k == 'double':
-            return 'double'
+            return 'fsv_f64'
         if k == 'float':
             return 'float'
         if k == 'x86_fp80':
@@ -813,14 +813,14 @@ def hexfloat(v, ty):
     else:
         d = float(v)
     if math.isnan(d):
-        return '__builtin_nan("")' if ty.k == 'double' else '__builtin_nanf("")'
+        return '((fsv_f64)__builtin_nan(""))' if ty.k == 'double' else '__builtin_nanf("")'
     if math.isinf(d):
-        s = '__builtin_inf()' if ty.k == 'double' else '__builtin_inff()'
+        s = '((fsv_f64)__builtin_inf())' if ty.k == 'double' else '__builtin_inff()'
         return '(-' + s + ')' if d < 0 else s
     s = d.hex()
     if ty.k == 'float':
-        s += 'f'
-    return '(' + s + ')'
+        return '(' + s + 'f)'
+    return '((fsv_f64)' + s + ')'
 
 
 class DbgToks(list):
@@ -1300,7 +1300,7 @@ class FuncTx:
             if op in ('fadd', 'fsub', 'fmul', 'fdiv'):
                 e = '%s %s %s' % (A, BINOP[op], B)
             elif op == 'frem':
-                e = 'fmod(%s, %s)' % (A, B)
+                e = '(fsv_f64)fmod((double)%s, (double)%s)' % (A, B)
             elif op in ('sdiv', 'srem'):
                 st = sint_ctype(ty.a)
                 e = '(%s)((%s)%s %s (%s)%s)' % (cty, st, A, '/' if op == 'sdiv' else '%', st, B)
@@ -1651,10 +1651,17 @@ class FuncTx:
         mm = re.match(r'llvm\.(fabs|sqrt|floor|ceil|trunc|rint|nearbyint|round|exp|exp2|log|log2|log10|sin|cos)\.f(32|64)$', name)
         if mm:
             fn = mm.group(1) + ('f' if mm.group(2) == '32' else '')
+            if mm.group(2) == '64':
+                self.set(dst, rty, '(fsv_f64)%s((double)%s)' % (fn, A(0))); return True
             self.set(dst, rty, '%s(%s)' % (fn, A(0))); return True
         mm = re.match(r'llvm\.(pow|minnum|maxnum|copysign|fmod)\.f(32|64)$', name)
         if mm:
             fn = {'minnum': 'fmin', 'maxnum': 'fmax'}.get(mm.group(1), mm.group(1)) + ('f' if mm.group(2) == '32' else '')
+            if mm.group(2) == '64' and mm.group(1) == 'pow':
+                self.m.need_pow = True
+                self.set(dst, rty, 'fsvx_pow(%s, %s)' % (A(0), A(1))); return True
+            if mm.group(2) == '64':
+                self.set(dst, rty, '(fsv_f64)%s((double)%s, (double)%s)' % (fn, A(0), A(1))); return True
             self.set(dst, rty, '%s(%s, %s)' % (fn, A(0), A(1))); return True
         if re.match(r'llvm\.fmuladd\.f(32|64)$', name):
             self.set(dst, rty, '(%s * %s + %s)' % (A(0), A(1), A(2))); return True
@@ -1886,10 +1893,17 @@ PRELUDE = r'''
 #include <math.h>
 #ifndef FSV_PRELUDE
 #define FSV_PRELUDE
+/* binary64 by default; FSV_FP_REDUCED: IEEE-style arithmetic with an 11-bit significand in a 64-bit container
+   (1 sign, 53 exponent, 10 fraction bits) -- same size and alignment as double, so the memory layout is unchanged */
+#if defined(__CPROVER__) && defined(FSV_FP_REDUCED)
+typedef __CPROVER_floatbv[64][10] fsv_f64;
+#else
+typedef double fsv_f64;
+#endif
 #ifdef __CPROVER__
 #define FSV_UNREACHABLE() __CPROVER_assume(0)
 #define FSV_TRAP() do { __CPROVER_assert(0, "llvm.trap reached"); __CPROVER_assume(0); } while (0)
-#define FSV_ISNAN(x) __CPROVER_isnand(x)
+#define FSV_ISNAN(x) ((x) != (x))
 #else
 #define FSV_UNREACHABLE() __builtin_unreachable()
 #define FSV_TRAP() __builtin_trap()
@@ -2000,6 +2014,9 @@ def emit_module(m, roots, out):
         static = '' if n in roots or m.opts.get('nostatic') else 'static '
         protos.append(('def', n, static + hdr + ';'))
         bodies.append(static + hdr + '\n{\n' + '\n'.join(body) + '\n}\n')
+    if getattr(m, 'need_pow', False) and not any(n == 'pow' for (k_, n, l_) in protos):
+        protos.append(('extern', 'pow', 'fsv_f64 fsvx_pow(fsv_f64, fsv_f64);'))
+        protos.append(('extern', 'pow', '#define FSV_DEF_fsvx_pow(...) fsv_f64 fsvx_pow(fsv_f64 a0, fsv_f64 a1) __VA_ARGS__'))
     # globals
     gdecl = []
     gdef = []
@@ -2125,7 +2142,7 @@ def main():
         info = emit_module(m, roots, f)
     if a.header:
         with open(a.header, 'w') as f:
-            f.write('#include <stdint.h>\n#include <stddef.h>\n' + '\n'.join(info['root_protos']) + '\n')
+            f.write('#include <stdint.h>\n#include <stddef.h>\n#include "fsv_harness.h"\n' + '\n'.join(info['root_protos']) + '\n')
     if a.dbgmap:
         import json
         with open(a.dbgmap, 'w') as f:
